@@ -1,5 +1,7 @@
 """C01 — the mapper returns a mapping that is optimal over the whole mapspace."""
 
+from hypothesis import strategies as st
+
 from vf.core import Violation, close, drive, hash32
 from vf.gen import spec as G
 from vf.gen import universe as U
@@ -25,6 +27,8 @@ ASSUMPTIONS = [
 
 
 def check(desc, col):
+    if desc.get("family") == "fused":
+        return check_fused(desc, col)
     metric = desc["mapper"]["metrics"]
     spec = G.build_spec(desc)
     uni, n_total, n_invalid = U.evaluate_universe(desc, col=col)
@@ -73,9 +77,130 @@ def check(desc, col):
                         key="mapper-better-than-universe")
 
 
+# ---------------------------------------------------------------------------------------------------------
+# fused two-Einsum family: a sound one-directional check against a SUB-universe of valid fused mappings
+# ---------------------------------------------------------------------------------------------------------
+
+@st.composite
+def fused_specs(draw):
+    kind = draw(st.sampled_from(["chain2", "chain2", "elementwise2"]))
+    es, rvs = G.chain(2) if kind == "chain2" else G.elementwise(2)
+    inter_vars = {"chain2": ("m", "n1"), "elementwise2": ("m", "n")}[kind]
+    bounds = {rv: draw(st.sampled_from([3, 4, 4, 6] if rv in inter_vars else [2, 2, 3, 4])) for rv in rvs}
+    bits = 8
+    wl = {"einsums": es, "bounds": bounds}
+    sizes = G.tensor_sizes(wl)
+    tot, big = sum(sizes.values()), max(sizes.values())
+    t_inter = bounds[inter_vars[0]] * bounds[inter_vars[1]]
+    lo = min(bounds[v] for v in inter_vars)
+    # GLB capacities: mostly so small that not even a one-dimensional slice of the intermediate fits next to the
+    # other tiles (the fused optimum then tiles the intermediate along two rank variables), sometimes larger
+    vals = draw(st.one_of(st.integers(3, lo + 3), st.integers(3, lo + 3), st.integers(3, lo + 3),
+                          st.integers(lo + 3, max(lo + 4, t_inter // 2 + 3)), st.sampled_from(["inf", tot, big + 2])))
+    ep = [32, 100]
+    nodes = [{"type": "Memory", "name": "Main", "size": "inf", "keep": "~Intermediates", "may_keep": "All",
+              "read": [draw(st.sampled_from(ep)), draw(st.sampled_from(["inf", 1, 2]))],
+              "write": [draw(st.sampled_from(ep)), draw(st.sampled_from(["inf", 1, 2]))], "leak": 0},
+             {"type": "Memory", "name": "GLB", "size": "inf" if vals == "inf" else vals * bits + bits / 2, "keep": "~Main",
+              "may_keep": "All", "read": [draw(st.sampled_from([0.5, 1, 2])), draw(st.sampled_from(["inf", 1, 2, 4]))],
+              "write": [draw(st.sampled_from([0.5, 1, 2])), draw(st.sampled_from(["inf", 1, 2, 4]))], "leak": 0},
+             {"type": "Compute", "name": "MAC", "compute": [1, draw(st.sampled_from([1, 2]))], "leak": 0}]
+    return {"family": "fused", "shape": kind, "einsums": es, "bounds": bounds, "bits": {"All": bits}, "n_instances": 1,
+            "nodes": nodes, "mapper": {"metrics": draw(st.sampled_from(["ENERGY", "ENERGY", "LATENCY"]))}}
+
+
+def check_fused(desc, col):
+    """Every member of a sub-universe of valid fused mappings -- shared loops over the rank variables of the
+    intermediate (at most one per variable, any order, any proper tile shape), the intermediate backed in the GLB
+    right below them, then one branch per Einsum with any factorisation of the remaining bounds and any GLB
+    placement of its private tensors -- must be no better than the mapper's best.  Energy and latency are additive
+    over the Einsums and a branch's private tiles are freed before the next branch starts, so the sub-universe
+    optimum is min over shared structures of the sum over Einsums of the best valid branch, each branch being
+    evaluated as a single-Einsum mapping by evaluate_mapping."""
+    import itertools
+
+    import accelforge as af
+    from accelforge.model.main import InvalidMappingError, evaluate_mapping
+    from vf.gen import mapping as GM
+    from vf.ref import mapspace as MS
+
+    af.set_n_parallel_jobs(1)
+    metric = desc["mapper"]["metrics"]
+    es = desc["einsums"]
+    bounds = desc["bounds"]
+    outs = {t for e in es for t, _, o in e["tensors"] if o}
+    ins = {t for e in es for t, _, o in e["tensors"] if not o}
+    inter = sorted(outs & ins)[0]
+    proj = {t: p for e in es for t, p, _ in e["tensors"]}
+    shared_vars = list(proj[inter])
+    sigmas = [[]]
+    for r in range(1, len(shared_vars) + 1):
+        for vs in itertools.permutations(shared_vars, r):
+            tile_opts = [[d for d in range(1, bounds[v]) if bounds[v] % d == 0] for v in vs]
+            for tiles in itertools.product(*tile_opts):
+                sigmas.append([{"k": "loop", "rv": v, "tile": t} for v, t in zip(vs, tiles)])
+    spec = G.build_spec(desc, apply_mapper=False)
+    best_total, best_desc, n_eval, n_invalid = None, None, 0, 0
+    for sigma in sigmas:
+        cur = dict(bounds)
+        for lp in sigma:
+            cur[lp["rv"]] = lp["tile"]
+        total, parts = 0.0, []
+        for e in es:
+            tens = [t for t, _, _ in e["tensors"]]
+            priv = [t for t in tens if t != inter]
+            rvs = sorted({v for _, p_, _ in e["tensors"] for v in p_})
+            best_e, best_tree = None, None
+            for tree in MS.members(e["name"], [], rvs, {v: cur[v] for v in rvs}, "Main", [("GLB", [], priv)], "MAC"):
+                if col.over_budget():
+                    col.case(desc, False, ["budget:universe-incomplete"])
+                    return
+                full = ([{"k": "storage", "level": "Main", "tensors": priv}] + sigma
+                        + [{"k": "storage", "level": "GLB", "tensors": [inter]}] + tree[1:])
+                spec.mapping = GM.to_af_mapping(full)
+                n_eval += 1
+                try:
+                    r = evaluate_mapping(spec)
+                except InvalidMappingError:
+                    n_invalid += 1
+                    continue
+                row = r.data.iloc[0]
+                v = float(row["Total<SEP>energy"] if metric == "ENERGY" else row["Total<SEP>latency"])
+                if best_e is None or v < best_e:
+                    best_e, best_tree = v, full
+            if best_e is None:
+                total = None
+                break
+            total += best_e
+            parts.append(U.show(best_tree))
+        if total is not None and (best_total is None or total < best_total):
+            best_total, best_desc = total, parts
+    n_shared = None if best_desc is None else best_desc[0].split(f"GLB[{inter}]")[0].count(" for ")
+    col.case(desc, best_total is not None and len(sigmas) > 1,
+             ["family:fused", f"metric:{metric}", f"shape:{desc['shape']}", "capacity_binding" if n_invalid else "capacity_free",
+              f"best_fused_shared_loops:{n_shared}",
+              "sub_universe_feasible" if best_total is not None else "sub_universe_infeasible"],
+             sample={"family": "fused", "bounds": bounds, "metric": metric, "shared_structures": len(sigmas), "evaluated": n_eval,
+                     "invalid": n_invalid, "best_fused": best_total, "argbest": best_desc})
+    try:
+        m = G.run_mapper(G.build_spec(desc))
+    except G.Infeasible as e:
+        if best_total is not None:
+            raise Violation(f"mapper reports no mapping ({e}) but a valid fused mapping exists: {best_desc} ({metric} {best_total})",
+                            key="mapper-infeasible")
+        return
+    except Exception as e:  # noqa: BLE001
+        raise Violation(f"map_workload_to_arch raised {type(e).__name__}: {str(e)[:300]}", key=f"mapper-crash:{type(e).__name__}")
+    col_ = "Total<SEP>energy" if metric == "ENERGY" else "Total<SEP>latency"
+    best_m = min(float(x) for x in m.data[col_])
+    if best_total is not None and best_m > best_total * (1 + 1e-5) + 1e-9:
+        raise Violation(f"mapper optimum {best_m} ({metric}) is worse than a valid fused mapping with {best_total}: {best_desc}",
+                        key="mapper-suboptimal:fused")
+
+
 N = {"quick": 32, "thorough": 256}
 NSHARDS = 16
-QUICK_BUDGET_S = 500
+QUICK_BUDGET_S = 900
 THOROUGH_BUDGET_S = 3000
 
 
@@ -86,6 +211,8 @@ def shards(tier, seed):
 def run_shard(shard, col):
     mu = 1500 if shard["tier"] == "quick" else 6000
     drive(U.tiny_specs(max_universe=mu), check, n=shard["n"], seed=hash32(shard["seed"], "C01", shard["k"]), col=col,
+          shrink=False)
+    drive(fused_specs(), check, n=max(1, shard["n"] // 2), seed=hash32(shard["seed"], "C01f", shard["k"]), col=col,
           shrink=False)
 
 
